@@ -232,6 +232,108 @@ pub fn judge_case(c: &Case) -> Obs {
     obs
 }
 
+/// The non-minimal breakpoint table: per row the address, one of the labels at it (or nothing) and
+/// the statement text (cells longer than their column are cut with an ellipsis).
+pub fn judge_table(c: &Case) -> Obs {
+    let mut obs = Obs::default();
+    let mut raw = c.raw.clone();
+    for l in &mut raw.lines {
+        if l.kind % N_KINDS == 27 && l.lit.cls == 11 {
+            l.lit.cls = 7;
+        }
+    }
+    let program = build_program(&raw);
+    let img = match judge(&program, raw.stack) {
+        Verdict::Accept(img) => img,
+        Verdict::Reject(w) | Verdict::Unspecified(w) | Verdict::Either(_, w) => {
+            obs.excluded = Some(w);
+            return obs;
+        }
+    };
+    let orig = img.orig.unwrap_or(0x3000);
+    let n = img.words.len();
+    if n == 0 || orig as usize + n + 1 > 0xFE00 {
+        obs.excluded = Some("empty program or image not entirely in user space");
+        return obs;
+    }
+    let r = render(&program, c.layout);
+    if r.text.contains('│') {
+        obs.excluded = Some("source contains the table's column separator");
+        return obs;
+    }
+    obs.key = hash_of(&("table", &r.text, raw.stack));
+    obs.label("breakpoint-table");
+    // breakpoints: every `.break` of the source plus up to 12 added addresses
+    let mut addrs: std::collections::BTreeSet<u16> = img.breaks.iter().map(|b| orig + *b).collect();
+    let mut lines: Vec<String> = Vec::new();
+    for k in 0..12usize {
+        let a = orig + ((k * 7 + c.offs.first().copied().unwrap_or(0) as u16 as usize) % (n + 1)) as u16;
+        if addrs.insert(a) {
+            lines.push(format!("break add x{a:x}"));
+        }
+    }
+    lines.push("break list".into());
+    lines.push("exit".into());
+    let shown = format!("breakpoints at {addrs:04X?}\n{}", r.text);
+    obs.show = Some(shown.clone());
+    obs.nontrivial = addrs.len() >= 3;
+    let s = lacebox::run_session(
+        Load::Source { text: r.text.clone(), debugger: Some(Some(lines.join("\n"))) },
+        RunSpec { stack: raw.stack, minimal: false, fuel: 2000, input: vec![] },
+    );
+    let Some(out) = outcome_of(&mut obs, "C17", &s, &shown) else { return obs };
+    if out.stop != Stop::Returned {
+        obs.set_fail("C17:session-ended-abnormally", format!("{:?}\n{shown}", out.stop));
+        return obs;
+    }
+    let err = String::from_utf8_lossy(&lacebox::strip_sgr(&out.stderr)).to_string();
+    let mut rows: Vec<(u16, String, String)> = Vec::new();
+    for l in err.lines() {
+        let cells: Vec<&str> = l.split('│').collect();
+        if cells.len() >= 4 && cells[1].trim().starts_with("0x") {
+            if let Ok(a) = u16::from_str_radix(cells[1].trim().trim_start_matches("0x"), 16) {
+                rows.push((a, cells[2].to_string(), cells[3].to_string()));
+            }
+        }
+    }
+    let want_addrs: Vec<u16> = addrs.iter().copied().collect();
+    let got_addrs: Vec<u16> = rows.iter().map(|r| r.0).collect();
+    if got_addrs != want_addrs {
+        obs.set_fail("C17:table-wrong-addresses", format!("the table lists {got_addrs:04X?}, expected {want_addrs:04X?}\n{shown}\n{}", clip(&err)));
+        return obs;
+    }
+    let cell_matches = |cell: &str, full: &str| -> bool {
+        // the cell has one leading space and is padded; a cut cell ends with an ellipsis
+        let cell = cell.strip_prefix(' ').unwrap_or(cell).trim_end();
+        match cell.strip_suffix('…') {
+            Some(prefix) => full.starts_with(prefix) && full.chars().count() > prefix.chars().count(),
+            None => cell == full.trim_end(),
+        }
+    };
+    for (a, label_cell, text_cell) in &rows {
+        let i = (*a - orig) as usize;
+        let labels_here: Vec<&String> = img.labels.iter().filter(|(_, li)| *li == i).map(|(n, _)| n).collect();
+        let label_ok = if labels_here.is_empty() { label_cell.trim().is_empty() } else { labels_here.iter().any(|l| cell_matches(label_cell, l)) };
+        if !label_ok {
+            obs.set_fail("C17:table-wrong-label", format!("row x{a:04X}: label cell {label_cell:?}, labels at that address: {labels_here:?}\n{shown}"));
+            return obs;
+        }
+        let want_text = if i < n {
+            match r.stmt_span[img.word_line[i]] {
+                Some((s, e)) => r.text[s..e].to_string(),
+                None => String::new(),
+            }
+        } else {
+            String::new()
+        };
+        if !cell_matches(text_cell, &want_text) {
+            obs.set_fail("C17:table-wrong-statement-text", format!("row x{a:04X}: text cell {text_cell:?}, the statement there is {want_text:?}\n{shown}"));
+            return obs;
+        }
+    }
+    obs
+}
+
 fn cases() -> impl Strategy<Value = Case> {
     (raw_program(22), layout(), prop::collection::vec(any::<i16>(), 0..4)).prop_map(|(raw, layout, offs)| Case { raw, layout, offs })
 }
@@ -242,18 +344,20 @@ impl Prop for C17 {
     }
     fn rule(&self) -> &'static str {
         "RefAsm programs over the whole instruction / trap / directive set (operand-less instructions after operand-ful ones, .stringz / .blkw / .fill, labels with and without colon and on their own line, commas / tabs / comments between and after operands, multi-byte characters in comments and strings, .break and .orig, origins on both sides of 0x8000, CRLF) rendered under three layout styles. \
-         Oracle: for every address in [origin-2, origin+n+2] minimal-mode `assembly <a>` prints exactly the renderer's text of the statement that produced that word (mnemonic/directive through last operand) and nothing for addresses without a statement; for up to 10 labels `goto L`, `goto L+-1`, to both ends of the program and one beyond, and a random signed-16-bit offset, set PC to address(L)+-k iff that is in user space (else PC stays); `print L` shows the word at L. \
+         Oracle: for every address in [origin-2, origin+n+2] minimal-mode `assembly <a>` prints exactly the renderer's text of the statement that produced that word (mnemonic/directive through last operand) and nothing for addresses without a statement; for up to 10 labels `goto L`, `goto L+-1`, to both ends of the program and one beyond, and a random signed-16-bit offset, set PC to address(L)+-k iff that is in user space (else PC stays); `print L` shows the word at L. The non-minimal breakpoint table (`.break` directives plus up to 12 added breakpoints) lists exactly the breakpoint addresses in order, and per row one of the labels at that address (or nothing) and the statement text, cut with an ellipsis where longer than the column. \
          Non-trivial: the program has a multi-word directive, an operand-less instruction following an operand-ful one, and a non-default origin or multi-byte text. Distinct = hash(rendered source, flag)."
     }
     fn assumptions(&self) -> Vec<String> {
         vec![
             "label names are [A-Za-z_][A-Za-z0-9_]* minus every spelling the documented command grammar reads as an integer or register (that precedence is C14's)".into(),
-            "only the minimal-mode output is compared; the non-minimal breakpoint table is not".into(),
+            "`assembly` is compared in minimal mode; the breakpoint table in non-minimal mode after stripping SGR sequences; the non-minimal source-context view of `assembly` is not compared".into(),
         ]
     }
     fn run_worker(&self, ctx: &Ctx, rep: &mut Report) {
         let n = ctx.share(ctx.tier.pick(3_000, 40_000));
         drive(ctx, rep, "programs", cases(), n, &mut |c: &Case| judge_case(c));
+        let n = ctx.share(ctx.tier.pick(1_500, 20_000));
+        drive(ctx, rep, "tables", cases(), n, &mut |c: &Case| judge_table(c));
     }
     fn replay(&self, _ctx: &Ctx, case: &Value) -> Obs {
         match serde_json::from_value::<Case>(case.clone()) {
